@@ -286,10 +286,98 @@ def fetch_rule(ctx, repo):
     else:
         ctx.ok({'impl': 'C', 'r_inc values': [0, 2]})
 
+def roundtrip_rule(ctx, repo):
+    """C20.6 (*fold*): write_rzx folded on a model recorder state (simulator registers and memory, tracer hardware state, the frames
+    not yet played with their fetch counters and port readings) for z80 and szx embedded snapshots, 48K; the bytes are folded back
+    through parse_rzx: the remaining frames, their fetch counters and port readings and the embedded machine state must be the ones
+    that were written."""
+    import random, zlib
+    from sa.core.classfold import ClassFolder, Inst
+    from sa.core.pyfacts import NotLiteral
+    ctx.rule('C20.6-container-roundtrip', 'write_rzx -> parse_rzx (folded): frames, fetch counters, port readings and the embedded snapshot state survive; z80 and szx, stop points inside the recording', floor=6)
+    rnd = random.Random(2006 + ctx.seed)
+    where = 'skoolkit/rzxplay.py'
+    files = {}
+    def hook(n, lit):
+        if isinstance(n, ast.Call) and isinstance(n.func, ast.Attribute) and isinstance(n.func.value, ast.Name) and n.func.value.id == 'zlib' and 'zlib' not in lit.env:
+            return getattr(zlib, n.func.attr)(*lit._seq(n.args))
+        if isinstance(n, ast.Call) and isinstance(n.func, ast.Name) and n.func.id == 'read_bin_file' and n.func.id not in lit.env:
+            a = lit._seq(n.args)
+            return bytes(cf.files[a[0]]) if isinstance(a[0], str) else bytes(a[0])
+        return None
+    cf = ClassFolder(repo, 'rzxplay', hook)
+    cf.files = {}
+    cfs = cf.sibling('snapshot')
+    class Obj:
+        _sa_fold_ok = True
+        _sa_model = True
+        def __init__(self, **kw):
+            self.__dict__.update(kw)
+    su = repo.mod('simutils')
+    R = {nm: Lit(repo, 'simutils').ev(su.assigns[nm][-1]) for nm in ('A', 'F', 'B', 'C', 'D', 'E', 'H', 'L', 'IXh', 'IXl', 'IYh', 'IYl', 'SP', 'I', 'R', 'xA', 'xF', 'xB', 'xC', 'xD', 'xE', 'xH', 'xL', 'PC', 'T', 'IFF', 'IM', 'MEMPTR')}
+    for ext in ('z80', 'szx'):
+        for stop_at in (0, 1, 3):
+            regs = [0] * 30
+            for nm in ('A', 'F', 'B', 'C', 'D', 'E', 'H', 'L', 'IXh', 'IXl', 'IYh', 'IYl', 'I', 'R', 'xA', 'xF', 'xB', 'xC', 'xD', 'xE', 'xH', 'xL'):
+                regs[R[nm]] = rnd.randrange(256)
+            regs[R['SP']], regs[R['PC']], regs[R['MEMPTR']] = rnd.randrange(65536), rnd.randrange(65536), rnd.randrange(65536)
+            regs[R['T']], regs[R['IFF']], regs[R['IM']] = rnd.randrange(69888), rnd.randrange(2), rnd.randrange(3)
+            mem = [0] * 16384 + [rnd.choice((0, 0, 237, 1, rnd.randrange(256))) for _ in range(49152)]
+            n_frames = 5
+            frames, data = [], []
+            for k in range(n_frames):
+                readings = [rnd.randrange(256) for _ in range(rnd.choice((0, 1, 3, 7)))]
+                start = len(data)
+                data += readings
+                frames.append(cf.new('Frame', rnd.randrange(1, 20000), start, len(data)))
+            tracer = Obj(border=rnd.randrange(8), outfe=rnd.randrange(256), out7ffd=0, outfffd=0, ay=[0] * 16, frames=frames, frame_index=stop_at, data=bytes(data))
+            sim = Obj(registers=regs, memory=mem, tracer=tracer)
+            snap = cfs.new('Z80' if ext == 'z80' else 'SZX', None, [0] * 49152, '48K')
+            context = Obj(simulator=sim, snapshot=snap)
+            name = '%s snapshot, stopped before frame %d of %d' % (ext, stop_at + 1, n_frames)
+            try:
+                cf.files.clear()
+                cf.call_func('rzxplay', 'write_rzx', ['out.rzx', context, []])
+                blob = bytes(cf.files['out.rzx'])
+                contents = cf.call_func('rzxplay', 'parse_rzx', ['out.rzx'])
+            except NotLiteral as e:
+                ctx.limit(name, 'not foldable: %s' % e)
+                continue
+            except (KeyError, IndexError, ValueError, TypeError, AttributeError) as e:
+                ctx.violation('rzx round trip ' + ext, where, '%s: fails with %s: %s' % (name, type(e).__name__, e))
+                continue
+            problems = []
+            objs = [c.obj for c in contents]
+            snaps = [o for o in objs if isinstance(o, Inst) and o._mod == 'snapshot']
+            recs = [o for o in objs if isinstance(o, Inst) and o._cls == 'InputRecording']
+            if len(snaps) != 1 or len(recs) != 1:
+                problems.append('%d snapshot and %d input-recording blocks read back, one of each written' % (len(snaps), len(recs)))
+            else:
+                s2, rec = snaps[0], recs[0]
+                want = {'a': regs[R['A']], 'f': regs[R['F']], 'bc': regs[R['C']] + 256 * regs[R['B']], 'de': regs[R['E']] + 256 * regs[R['D']], 'hl': regs[R['L']] + 256 * regs[R['H']],
+                        'ix': regs[R['IXl']] + 256 * regs[R['IXh']], 'iy': regs[R['IYl']] + 256 * regs[R['IYh']], 'sp': regs[R['SP']], 'pc': regs[R['PC']], 'i': regs[R['I']], 'r': regs[R['R']],
+                        'a2': regs[R['xA']], 'f2': regs[R['xF']], 'bc2': regs[R['xC']] + 256 * regs[R['xB']], 'de2': regs[R['xE']] + 256 * regs[R['xD']], 'hl2': regs[R['xL']] + 256 * regs[R['xH']],
+                        'border': tracer.border, 'iff1': regs[R['IFF']], 'im': regs[R['IM']], 'tstates': regs[R['T']]}
+                for k, v in want.items():
+                    g = getattr(s2, k, None)
+                    if g != v:
+                        problems.append('embedded snapshot %s is %r, the recorder held %r' % (k, g, v))
+                if list(cfs.call(s2, 'ram')) != mem[16384:]:
+                    problems.append('embedded snapshot RAM differs from the recorder memory')
+                got_frames = [(f.fetch_counter, list(rec.data[f.start:f.end])) for f in rec.frames]
+                want_frames = [(f.fetch_counter, list(data[f.start:f.end])) for f in frames[stop_at:]]
+                if got_frames != want_frames:
+                    problems.append('frames read back %s, written %s' % (got_frames[:3], want_frames[:3]))
+            if problems:
+                ctx.violation('rzx round trip ' + ext, where, '%s: %s' % (name, '; '.join(problems[:3])))
+            else:
+                ctx.ok({'case': name, 'bytes': len(blob)})
+
 def run(ctx):
     repo = pyfacts.Repo(ctx.repo_root)
     container_rule(ctx, repo)
     fetch_rule(ctx, repo)
+    roundtrip_rule(ctx, repo)
     from sa.rules import hwstate
     hwstate.run(ctx, repo, 'C20.5-hwstate')
     from sa.rules import C08paging, C09
